@@ -105,7 +105,19 @@ class Report:
         data = json.loads(KNOWN_FILE.read_text())
         return [e for e in data.get("findings", []) if e.get("property") == self.pid]
 
+    def part(self, what: str = ""):
+        """`with rep.part("structural rules"):` - an AnalysisError inside the block leaves that part undecided and lets the rules
+        that follow (typically the interpretive ones) run; finish() then reports the property as undecided unless a violation
+        was established (a finding stands on its own)."""
+        return _Part(self, what)
+
     def finish(self, quiet: bool = False) -> int:
+        deferred = getattr(self, "_deferred_error", None)
+        if deferred is not None and not any(f.key not in {e["key"] for e in self._known() if e.get("status") == "known"} for f in self.findings):
+            raise deferred
+        if deferred is not None:
+            self.info(f"PARTIALLY UNDECIDED: {deferred}")
+            print(f"note: property={self.pid}: some rules were not evaluated (analysis error: {deferred}); findings of the rules that ran stand on their own")
         # vacuity guards
         counts: Dict[str, int] = {}
         for i in self.instances:
@@ -232,6 +244,21 @@ def rel(path) -> str:
         return str(Path(path).resolve().relative_to(REPO))
     except Exception:
         return str(path)
+
+
+class _Part:
+    def __init__(self, rep, what):
+        self.rep, self.what = rep, what
+
+    def __enter__(self):
+        return self
+
+    def __exit__(self, et, ev, tb):
+        if et is not None and issubclass(et, AnalysisError):
+            if getattr(self.rep, "_deferred_error", None) is None:
+                self.rep._deferred_error = ev
+            return True
+        return False
 
 
 class Demoter:
